@@ -62,7 +62,7 @@ func c14Timer(nops int) {
 	}
 	zzvrt.Assert(c14Delivered <= want, "C14.stopped-or-replaced-timer-fired")
 	zzvrt.Assert(c14Delivered >= want, "C14.armed-timer-did-not-fire")
-	zzvrt.Assert(zzvrt.NumLive("setHandshakeTimer$1") == 0, "C14.timer-goroutine-leaked")
+	zzvrt.Assert(zzvrt.NumLive("") == 0, "C14.timer-goroutine-leaked")
 	zzvrt.Cover("c14.end")
 }
 
